@@ -1,6 +1,7 @@
 package rules
 
 import (
+	"go/types"
 	"fmt"
 	"go/token"
 	"sort"
@@ -148,6 +149,7 @@ func runC12(e *Env) {
 	r.Rule("C12.R4", "paths", "SetMessage releases once then replaces; Swap releases nothing; Swap callers keep the returned message accounted", 3)
 	r.Rule("C12.R5", "locks", "pending copy only under the entry's mutex", 3)
 	r.Rule("C12.R6", "paths", "Pool.ReleaseMessage: Reset before Put, nothing after", 2)
+	r.Rule("C12.R7", "own", "ownership across containers: a message handed to a pending entry is released only through the entry; a message read out of a cache element is borrowed; a closure that outlives the function does not capture a message the function releases", 3)
 	rel := releaserParams(e)
 	if e.want("C12.R1") {
 		c12Typestate(e, rel)
@@ -191,6 +193,9 @@ func runC12(e *Env) {
 			})
 			e.R.Check(ok, "C12.R5", "udp/client.midElement.ReleaseMessage:forgets-copy", e.fpos(f), "the copy pointer is set to nil right after the release, in the same critical section", "a released copy stays referenced by the pending entry: a racing sweep or acknowledgement releases it a second time")
 		}
+	}
+	if e.want("C12.R7") {
+		c12Containers(e, rel, "C12.R7", "abc")
 	}
 	if e.want("C12.R6") {
 		if f := e.fn("C12.R6", "message/pool.Pool.ReleaseMessage"); f != nil && len(f.Params) == 2 {
@@ -505,4 +510,156 @@ func c12ResponseWriter(e *Env, rel map[*ssa.Function]map[int]bool) {
 	if n == 0 {
 		e.R.Undecided(rule, "Swap:callers", "-", "no caller of Swap found")
 	}
+}
+
+// c12Containers: R7 (also run under C13 for the closure clause: a removal closure keyed by a released message removes nothing).
+func c12Containers(e *Env, rel map[*ssa.Function]map[int]bool, rule string, clauses string) {
+	nRel, nBorrowed := 0, 0
+	for _, f := range e.P.SrcFuncs(false) {
+		name := core.FnName(f)
+		if strings.HasPrefix(name, "examples/") || f.Parent() != nil {
+			continue
+		}
+		fam := core.WithAnon(f)
+		type relSite struct {
+			c ssa.CallInstruction
+			v ssa.Value
+			g *ssa.Function
+		}
+		var rels []relSite
+		for _, g := range fam {
+			core.Instrs(g, func(in ssa.Instruction) {
+				if c, ok := in.(ssa.CallInstruction); ok {
+					if v := releasedValue(c, rel); v != nil {
+						rels = append(rels, relSite{c, v, g})
+					}
+				}
+			})
+		}
+		nRel += len(rels)
+		// (a) messages stored as the pending entry's copy
+		if strings.Contains(clauses, "a") && !strings.Contains(name, ".midElement.") {
+			for _, g := range fam {
+				core.Instrs(g, func(in ssa.Instruction) {
+					st, ok := in.(*ssa.Store)
+					if !ok || !isPoolMsg(st.Val) {
+						return
+					}
+					_, fl, isF := core.FieldOf(st.Addr)
+					if !isF || fl != "msg" || !hasMutexSibling(st.Addr) {
+						return
+					}
+					bad := ""
+					for _, r := range rels {
+						if r.g == g && !reachableFrom(g, st, r.c.(ssa.Instruction)) {
+							continue // released on a path that never handed the message to the entry
+						}
+						if sameMsg(r.v, st.Val) {
+							bad = "the message that became the pending entry's copy at " + e.pos(st) + " is also released directly at " + e.pos(r.c.(ssa.Instruction)) + ": removing the entry releases it a second time"
+						}
+					}
+					e.R.Check(bad == "", rule, name+":entry-owned "+describeMsg(st.Val), e.pos(st), "the message handed to the pending entry is never released directly by this function", bad)
+				})
+			}
+		}
+		// (b) borrowed from a cache element
+		for _, r := range rels {
+			if !strings.Contains(clauses, "b") {
+				break
+			}
+			dc, isCall := core.Resolve(core.Unwrap(r.v)).(*ssa.Call)
+			if !isCall || !strings.HasSuffix(core.CalleeName(dc), "cache.Element.Data") {
+				continue
+			}
+			nBorrowed++
+			owned := false
+			if ex, isEx := core.Resolve(core.Unwrap(core.Arg(dc, 0))).(*ssa.Extract); isEx {
+				if src, isC := ex.Tuple.(*ssa.Call); isC && strings.Contains(core.CalleeName(src), "LoadAndDelete") {
+					owned = true
+				}
+			}
+			e.R.Check(owned, rule, name+":release of cache data", e.pos(r.c.(ssa.Instruction)), "the element was removed from the cache (LoadAndDelete) before its message is released",
+				"a message read out of a cache element that is still in the cache is released: the cache keeps using it (and its expiry callback releases it again)")
+		}
+		// (c) closures that outlive f must not capture a message f releases
+		for _, r := range rels {
+			if r.g != f || !strings.Contains(clauses, "c") {
+				continue
+			}
+			for _, g := range f.AnonFuncs {
+				mk, bind := core.ClosureBindings(g)
+				if mk == nil {
+					continue
+				}
+				captures := false
+				for _, b := range bind {
+					if isPoolMsg(b) && sameMsg(b, r.v) {
+						captures = true
+					}
+					if a, isA := b.(*ssa.Alloc); isA {
+						if la, isL := core.Resolve(r.v).(*ssa.UnOp); isL && core.CellOf(la.X) == a {
+							captures = true
+						}
+						for _, st := range core.StoresToCell(a) {
+							if isPoolMsg(st.Val) && sameMsg(st.Val, r.v) {
+								captures = true
+							}
+						}
+					}
+				}
+				if !captures {
+					continue
+				}
+				esc := ""
+				for _, ref := range core.Referrers(mk) {
+					switch u := ref.(type) {
+					case *ssa.Return:
+						esc = "returned at " + e.pos(u)
+					case *ssa.Store:
+						if _, isCell := u.Addr.(*ssa.Alloc); !isCell {
+							esc = "stored at " + e.pos(u)
+						} else {
+							// local variable: is the variable returned?
+							for _, ld := range core.Referrers(u.Addr) {
+								if l, isL := ld.(*ssa.UnOp); isL {
+									for _, rr := range core.Referrers(l) {
+										if ret, isRet := rr.(*ssa.Return); isRet {
+											esc = "returned at " + e.pos(ret)
+										}
+									}
+								}
+							}
+						}
+					case *ssa.Go:
+						esc = "started as a goroutine at " + e.pos(u)
+					}
+				}
+				e.R.Check(esc == "", rule, name+":closure captures released "+describeMsg(r.v), e.pos(mk), "the closure that captures the message does not outlive the function",
+					"a closure capturing the message is "+esc+" while the function releases the message ("+e.pos(r.c.(ssa.Instruction))+"): it will read a recycled message")
+			}
+		}
+	}
+	e.R.Ok(rule, "release-sites:borrowed-or-captured", "-", fmt.Sprintf("%d release sites examined; %d release cache-element data", nRel, nBorrowed))
+}
+
+// hasMutexSibling: addr is &S.f for a struct S that also embeds or contains a sync.Mutex (the pending entry's guarded part).
+func hasMutexSibling(addr ssa.Value) bool {
+	fa, ok := addr.(*ssa.FieldAddr)
+	if !ok {
+		return false
+	}
+	t := fa.X.Type()
+	if p, isP := t.Underlying().(*types.Pointer); isP {
+		t = p.Elem()
+	}
+	st, isS := t.Underlying().(*types.Struct)
+	if !isS {
+		return false
+	}
+	for i := 0; i < st.NumFields(); i++ {
+		if core.TypeName(st.Field(i).Type()) == "sync.Mutex" {
+			return true
+		}
+	}
+	return false
 }
